@@ -27,7 +27,7 @@ def rnd_reply(rng, code, text=None):
     t = text if text is not None else rng.choice([b"ok", b"done", b"", b"x y z", b"File status (a|b)"])
     ml = None
     if rng.chance(1, 5):
-        ml = [rng.choice([b" more", b"", b"226-x", b"123 y", b"%d-z" % code]) for _ in range(rng.range(1, 3))]
+        ml = [rng.choice([b" more", b"", b"226-x", b"123 y", b"%d-z" % code, b"%d" % code, b"%d\tq" % code]) for _ in range(rng.range(1, 3))]
     term = b"\r\n" if rng.chance(5, 6) else b"\n"
     return R(b"%d " % code + t, multiline=ml, term=term)
 
